@@ -1,5 +1,6 @@
 From Verif Require Import Lib.Base Ledger.SharePool Ledger.SharePoolProofs Ledger.SharePoolSeq Ledger.SharePoolExamples.
 From Verif Require Import Ledger.Debond Ledger.DebondProofs Ledger.DebondExamples.
+From Verif Require Import Ledger.Rewards Ledger.RewardsProofs.
 
 (* Deposit (api.go:659): on success the pool becomes (B+a, S+m), m = a when no
    shares exist, else floor(a*S/B); unless the pool holds an orphan balance
@@ -201,3 +202,70 @@ Print Assumptions reclaim_moves_stake.
 Theorem debond_wf_reachable : forall epoch ops, wfD (drun (dinit epoch) ops).
 Proof. exact debond_wf_reachable_l. Qed.
 Print Assumptions debond_wf_reachable.
+
+Theorem debond_wf_reachable2 : forall epoch b s ops, wfD (drun (dinit2 epoch b s) ops).
+Proof. exact debond_wf_reachable2_l. Qed.
+Print Assumptions debond_wf_reachable2.
+
+(* Rewards with commission (AddRewards / AddRewardSingleAttenuated /
+   computeCommission), for all balances, factors, scales, rates, attenuations
+   and denominators. *)
+Theorem reward_raises_price : forall rd cd a common factor scale rate att,
+  price_le (rapool a) (rapool (rracct (add_reward rd cd a common factor scale rate att))).
+Proof. exact reward_raises_price_l. Qed.
+Print Assumptions reward_raises_price.
+
+Theorem commission_is_ordinary_deposit : forall rd cd a common factor scale rate att,
+  let r := add_reward rd cd a common factor scale rate att in
+  tsh (rapool a) <> 0 ->
+  rrminted r * (bal (rapool a) + (rrq r - rrcom r)) <= rrcom r * tsh (rapool a) /\
+  worth (rapool (rracct r)) (rrminted r) <= rrcom r /\
+  (cd <> 0 -> rrcom r * cd <= rrq r * rate).
+Proof. exact commission_is_ordinary_deposit_l. Qed.
+Print Assumptions commission_is_ordinary_deposit.
+
+Theorem reward_split_conserves : forall rd cd a common factor scale rate att,
+  let r := add_reward rd cd a common factor scale rate att in
+  rrcom r <= rrq r /\ rrq r <= common /\
+  rrcommon r = common - rrq r /\
+  bal (rapool (rracct r)) = bal (rapool a) + (rrq r - rrcom r) + rrcom r /\
+  bal (rapool (rracct r)) + rrcommon r = bal (rapool a) + common /\
+  tsh (rapool (rracct r)) = tsh (rapool a) + rrminted r /\
+  raself (rracct r) = raself a + rrminted r /\
+  (rrcode r <> COk -> rracct r = a /\ rrcommon r = common).
+Proof. exact reward_split_conserves_l. Qed.
+Print Assumptions reward_split_conserves.
+
+(* every holder's redeemable worth after a reward is at least what it was,
+   the entity's (with its commission shares) included *)
+Theorem reward_holders_never_lose : forall rd cd a common factor scale rate att u,
+  let r := add_reward rd cd a common factor scale rate att in
+  worth (rapool a) u <= worth (rapool (rracct r)) u /\
+  worth (rapool a) (raself a) <= worth (rapool (rracct r)) (raself (rracct r)).
+Proof. exact reward_holders_never_lose_l. Qed.
+Print Assumptions reward_holders_never_lose.
+
+(* a reward with commission IS the operation list [plain reward; deposit by
+   the entity] of the multi-delegator machine, so profit_bound, conservation
+   and passive_holder_never_loses cover histories with commission rewards *)
+Theorem reward_is_machine_ops : forall rd cd st ent common factor scale rate att,
+  let a := mkRA (mpool st) (dsh (dget ent (mdel st))) in
+  let r := add_reward rd cd a common factor scale rate att in
+  let ops := reward_ops rd cd (mpool st) common factor scale rate att ent in
+  rrcode r = COk ->
+  mpool (mfinal st ops) = rapool (rracct r) /\
+  dsh (dget ent (mdel (mfinal st ops))) = raself (rracct r) /\
+  (forall d, d <> ent -> Forall (passive d) ops /\ dget d (mdel (mfinal st ops)) = dget d (mdel st)) /\
+  Forall (actor_in (N.eqb ent)) ops.
+Proof. exact reward_is_machine_ops_l. Qed.
+Print Assumptions reward_is_machine_ops.
+
+(* the address loop of AddRewards: no account is worse off, and balances plus
+   common pool are conserved *)
+Theorem add_rewards_conserves : forall rd cd accts common factor scale,
+  let '(c, out, cm) := add_rewards rd cd accts common factor scale in
+  Forall2 (fun x a' => no_worse (fst x) a') accts out /\
+  (c = COk -> sumbal out + cm = sumbal (map fst accts) + common) /\
+  (c <> COk -> cm = common).
+Proof. exact add_rewards_conserves_l. Qed.
+Print Assumptions add_rewards_conserves.
